@@ -205,9 +205,9 @@ def quick_sets(scalar=False):
 def quick_configs(scalar=False, clang=True, stds=True):
     cfgs = [Config(s) for s in quick_sets(scalar)]
     if clang:
-        cfgs += [Config([], "clang"), Config(FULL, "clang")]
+        cfgs += [Config([], "clang"), Config(FULL, "clang"), Config(["SSE2"], "clang"), Config(["AVX2", "FMA"], "clang")]
     if stds:
-        cfgs += [Config([], "gcc", 17), Config([], "gcc", 20)]
+        cfgs += [Config([], "gcc", 17), Config([], "gcc", 20), Config(["SSE2"], "gcc", 20), Config(FULL, "gcc", 20)]
     return uniq(cfgs)
 
 
